@@ -11,6 +11,28 @@ Inductive case :=
 | CApi (ifs : list ifin) (a : api_out)
 | CRoutes (prometheus pprof : bool) (obs : list (route * bool)).     (* route, served (status <> 404) *)
 
+(* ---- constructors used by the generated case terms (typed applications elaborate faster than nested pairs) *)
+Definition S (name : string) (labels : list (string * lval)) (v : Z) : sample := (name, labels, v).
+Definition L (name : string) (v : lval) : string * lval := (name, v).
+Definition s_corerad_interface_advertising := metric_name MAdvertising.
+Definition s_corerad_interface_monitoring := metric_name MMonitoring.
+Definition s_corerad_interface_autoconfiguration := metric_name MAutoconf.
+Definition s_corerad_interface_forwarding := metric_name MForwarding.
+Definition s_corerad_advertiser_misconfiguration := metric_name MMisconf.
+Definition s_corerad_advertiser_dnssl_lifetime_seconds := metric_name MDnssl.
+Definition s_corerad_advertiser_prefix_autonomous := metric_name MPfxAutonomous.
+Definition s_corerad_advertiser_prefix_on_link := metric_name MPfxOnLink.
+Definition s_corerad_advertiser_prefix_valid_seconds := metric_name MPfxValid.
+Definition s_corerad_advertiser_prefix_preferred_seconds := metric_name MPfxPreferred.
+Definition s_corerad_advertiser_rdnss_lifetime_seconds := metric_name MRdnss.
+Definition s_corerad_advertiser_route_lifetime_seconds := metric_name MRoute.
+Definition s_interface := "interface"%string.
+Definition s_details := "details"%string.
+Definition s_domains := "domains"%string.
+Definition s_prefix := "prefix"%string.
+Definition s_route := "route"%string.
+Definition s_servers := "servers"%string.
+
 (* ---- comparison helpers *)
 
 Definition count_s (s : sample) (l : list sample) : nat := length (filter (sample_eqb s) l).
